@@ -91,7 +91,9 @@ def result_digest(res):
 
 def run_history(entry, scs, seed, variant):
     ids = Ids()
-    qs = entry.make(seed, np.nan, (0, 1))
+    # one third of the strategies get their random_state as a RandomState instance: the caller's generator object
+    # is a constructor parameter like any other and must not be advanced by query
+    qs = entry.make(np.random.RandomState(seed) if seed % 3 == 2 else seed, np.nan, (0, 1))
     params0 = ids(params_digest(qs))
     sig = inspect.signature(qs.query).parameters
     events = []
